@@ -20,6 +20,7 @@ import (
 
 	"github.com/ysugimoto/falco/v2/interpreter"
 	"github.com/ysugimoto/falco/v2/interpreter/context"
+	"github.com/ysugimoto/falco/v2/interpreter/function/builtin"
 	fhttp "github.com/ysugimoto/falco/v2/interpreter/http"
 	"github.com/ysugimoto/falco/v2/interpreter/value"
 	"github.com/ysugimoto/falco/v2/interpreter/variable"
@@ -97,6 +98,9 @@ func hdrRead(v variable.Variable, sc context.Scope, name string) string {
 	return "S" + hex.EncodeToString([]byte(s.Value))
 }
 
+// the context of the running request (for the ops that go through built-in functions)
+var hdrCurCtx *context.Context
+
 func hdrOps(v variable.Variable, sc context.Scope, obj string, ops string) string {
 	var out []string
 	for _, op := range strings.Split(ops, ";") {
@@ -109,6 +113,30 @@ func hdrOps(v variable.Variable, sc context.Scope, obj string, ops string) strin
 			name = obj + ".http." + f[1]
 		}
 		switch {
+		case f[0] == "hg" && len(f) == 2:
+			// header.get(obj, "Name[:key]") : another access path to the same headers
+			r, err := builtin.Header_get(hdrCurCtx, &value.Ident{Value: obj}, &value.String{Value: f[1]})
+			if err != nil {
+				out = append(out, "err")
+			} else if s, ok := r.(*value.String); ok && !s.IsNotSet {
+				out = append(out, "S"+hex.EncodeToString([]byte(s.Value)))
+			} else {
+				out = append(out, "N")
+			}
+		case f[0] == "B" && len(f) == 2:
+			// ballast: n further headers Ballast-<i> = "v<i>" set through Variable.Set
+			n := 0
+			for _, c := range f[1] {
+				n = n*10 + int(c-'0')
+			}
+			res := "ok"
+			for i := 0; i < n; i++ {
+				bn := obj + ".http.Ballast-" + itoa(i)
+				if err := v.Set(sc, bn, "=", &value.String{Value: "v" + itoa(i)}); err != nil {
+					res = "err"
+				}
+			}
+			out = append(out, res)
 		case f[0] == "g" && len(f) == 2:
 			out = append(out, hdrRead(v, sc, name))
 		case f[0] == "s" && len(f) == 3:
@@ -144,12 +172,25 @@ func hdrOps(v variable.Variable, sc context.Scope, obj string, ops string) strin
 	return strings.Join(out, " ")
 }
 
+func itoa(i int) string {
+	if i == 0 {
+		return "0"
+	}
+	var b []byte
+	for i > 0 {
+		b = append([]byte{byte('0' + i%10)}, b...)
+		i /= 10
+	}
+	return string(b)
+}
+
 func hdrHandler(args string) string {
 	f := strings.SplitN(args, " ", 3)
 	if len(f) < 3 {
 		return "badreq"
 	}
 	ctx := hdrCtx()
+	hdrCurCtx = ctx
 	v, sc := hdrVars(f[0], ctx)
 	if v == nil {
 		return "badreq scope"
@@ -227,6 +268,7 @@ func hdrFieldHandler(args string) string {
 // reply: items of the pre-ops, "|", items of the ops ("ok" for d and @).
 func hdrMultiOps(ctx *context.Context, scope string, ops string) []string {
 	var out []string
+	hdrCurCtx = ctx
 	v, sc := hdrVars(scope, ctx)
 	for _, op := range strings.Split(ops, ";") {
 		f := strings.Fields(op)
